@@ -1,0 +1,334 @@
+//! K-round versioned atomics: Lal–Reps round-robin sequentialisation of a multi-threaded
+//! execution (only compiled with `--cfg prometheus_verif_sync`).
+//!
+//! Every shared cell keeps K versions; thread bodies are run one after the other by the harness,
+//! each choosing nondeterministically, before every atomic step, in which round (0..K) the step
+//! happens. Versions 1..K start as guesses; `assume_consistent()` ties the value at the end of
+//! round r to the guess for round r+1. Under Kani all choices are solver variables; natively
+//! they are read from the replay tape, which drives the real code through the same schedule.
+#![allow(missing_docs, dead_code, static_mut_refs)]
+use std::cell::UnsafeCell;
+pub use std::sync::atomic::Ordering;
+
+use crate::verif_rt::{any_u64, any_usize, assume};
+
+const fn parse_k() -> usize {
+    match option_env!("PROMETHEUS_VERIF_K") {
+        Some(s) => (s.as_bytes()[0] - b'0') as usize,
+        None => 3,
+    }
+}
+/// Number of rounds (context switches per thread + 1). 1 <= K <= 4.
+pub const K: usize = parse_k();
+pub const NCELL: usize = 16;
+
+static mut ROUND: usize = 0;
+/// 0 = plain (version 0 only), 1 = plain + register cells on first use, 2 = versioned
+static mut MODE: u8 = 0;
+static mut CELLS: [*const Cell; NCELL] = [std::ptr::null(); NCELL];
+static mut NCELLS: usize = 0;
+static mut THREAD: usize = 0;
+/// failed compare-exchange attempts per thread (index = thread number, 1-based, up to 7)
+static mut CAS_FAILS: [u32; 8] = [0; 8];
+/// Upper bound for guessed values of cells created with `mask` u64::MAX (0 = unrestricted).
+static mut GUESS_BOUND: u64 = 0;
+
+#[derive(Debug)]
+pub struct Cell {
+    v: UnsafeCell<[u64; K]>,
+    g: UnsafeCell<[u64; K]>,
+    /// 1 for lock words (guesses restricted to {0,1}), u64::MAX otherwise
+    mask: u64,
+    /// stutter mark: (thread, round + 1, expected) of the last failed compare-exchange
+    fail: UnsafeCell<(usize, usize, u64)>,
+}
+unsafe impl Sync for Cell {}
+unsafe impl Send for Cell {}
+
+fn sched_point_inner() {
+    unsafe {
+        if MODE == 2 {
+            let r = any_usize();
+            assume(r >= ROUND && r < K);
+            ROUND = r;
+        }
+    }
+}
+/// A scheduling point without an access (used by harnesses to mark "operation begins here").
+pub fn sched_point() {
+    sched_point_inner()
+}
+
+impl Cell {
+    pub const fn new(x: u64, mask: u64) -> Cell {
+        Cell {
+            v: UnsafeCell::new([x; K]),
+            g: UnsafeCell::new([0; K]),
+            mask,
+            fail: UnsafeCell::new((0, 0, 0)),
+        }
+    }
+    #[inline]
+    unsafe fn slot(&self) -> &mut u64 {
+        if MODE == 1 {
+            self.register();
+        }
+        let arr: &mut [u64; K] = &mut *self.v.get();
+        if MODE == 2 {
+            // explicit case split keeps every access field-sensitive (no symbolic offsets)
+            if ROUND == 0 || K == 1 {
+                &mut arr[0]
+            } else if ROUND == 1 || K == 2 {
+                &mut arr[1 % K]
+            } else if ROUND == 2 || K == 3 {
+                &mut arr[2 % K]
+            } else {
+                &mut arr[3 % K]
+            }
+        } else {
+            &mut arr[0]
+        }
+    }
+    unsafe fn register(&self) {
+        let p = self as *const Cell;
+        let mut i = 0;
+        while i < NCELL {
+            if i < NCELLS && CELLS[i] == p {
+                return;
+            }
+            i += 1;
+        }
+        assert!(NCELLS < NCELL, "verif_sync: too many shared cells");
+        CELLS[NCELLS] = p;
+        NCELLS += 1;
+    }
+    unsafe fn guess(&self) {
+        let v = &mut *self.v.get();
+        let g = &mut *self.g.get();
+        let mut r = 1;
+        while r < K {
+            let x = any_u64() & self.mask;
+            v[r] = x;
+            g[r] = x;
+            r += 1;
+        }
+    }
+    unsafe fn consistent(&self) {
+        let v = &*self.v.get();
+        let g = &*self.g.get();
+        let mut r = 0;
+        while r + 1 < K {
+            assume(v[r] == g[r + 1]);
+            r += 1;
+        }
+    }
+}
+
+/// Phase 1: cells touched from now on are registered (call every operation once, sequentially).
+pub fn begin_register() {
+    assert!(K >= 1 && K <= 4);
+    unsafe {
+        MODE = 1;
+    }
+}
+/// Phase 2: guess the initial value of every registered cell for rounds 1..K.
+pub fn begin_threads() {
+    unsafe {
+        let mut i = 0;
+        while i < NCELL {
+            if i < NCELLS {
+                (*CELLS[i]).guess();
+            }
+            i += 1;
+        }
+        MODE = 2;
+        ROUND = 0;
+        THREAD = 0;
+    }
+}
+/// The next thread body starts (in round 0).
+pub fn start_thread() {
+    unsafe {
+        ROUND = 0;
+        THREAD += 1;
+    }
+}
+pub fn round() -> usize {
+    unsafe { ROUND }
+}
+pub fn thread() -> usize {
+    unsafe { THREAD }
+}
+pub fn ncells() -> usize {
+    unsafe { NCELLS }
+}
+pub fn cas_fails(thread: usize) -> u32 {
+    unsafe { CAS_FAILS[thread] }
+}
+/// Phase 3: keep only executions whose guesses were right; afterwards every access sees the
+/// final state (last round) and no further scheduling choices are made.
+pub fn assume_consistent() {
+    unsafe {
+        let mut i = 0;
+        while i < NCELL {
+            if i < NCELLS {
+                (*CELLS[i]).consistent();
+            }
+            i += 1;
+        }
+        ROUND = K - 1;
+        MODE = 3;
+    }
+}
+// MODE 3 behaves like 2 for slot selection but without scheduling choices.
+#[inline]
+unsafe fn versioned() -> bool {
+    MODE >= 2
+}
+
+#[derive(Debug)]
+pub struct AtomicU64 {
+    c: Cell,
+}
+impl AtomicU64 {
+    pub const fn new(x: u64) -> Self {
+        AtomicU64 { c: Cell::new(x, u64::MAX) }
+    }
+    unsafe fn slot(&self) -> &mut u64 {
+        if MODE == 3 {
+            let arr: &mut [u64; K] = &mut *self.c.v.get();
+            return &mut arr[K - 1];
+        }
+        self.c.slot()
+    }
+    pub fn load(&self, _o: Ordering) -> u64 {
+        sched_point_inner();
+        unsafe { *self.slot() }
+    }
+    pub fn store(&self, x: u64, _o: Ordering) {
+        sched_point_inner();
+        unsafe { *self.slot() = x }
+    }
+    pub fn swap(&self, x: u64, _o: Ordering) -> u64 {
+        sched_point_inner();
+        unsafe {
+            let p = self.slot();
+            let old = *p;
+            *p = x;
+            old
+        }
+    }
+    pub fn fetch_add(&self, x: u64, _o: Ordering) -> u64 {
+        sched_point_inner();
+        unsafe {
+            let p = self.slot();
+            let old = *p;
+            *p = old.wrapping_add(x);
+            old
+        }
+    }
+    pub fn fetch_sub(&self, x: u64, _o: Ordering) -> u64 {
+        sched_point_inner();
+        unsafe {
+            let p = self.slot();
+            let old = *p;
+            *p = old.wrapping_sub(x);
+            old
+        }
+    }
+    pub fn compare_exchange(&self, cur: u64, new: u64, s: Ordering, f: Ordering) -> Result<u64, u64> {
+        self.compare_exchange_weak(cur, new, s, f)
+    }
+    /// Modelled as strong (spurious failure is a stutter step and is pruned like one).
+    pub fn compare_exchange_weak(&self, cur: u64, new: u64, _s: Ordering, _f: Ordering) -> Result<u64, u64> {
+        sched_point_inner();
+        unsafe {
+            let p = self.slot();
+            let old = *p;
+            if old == cur {
+                *p = new;
+                Ok(old)
+            } else {
+                if MODE == 2 {
+                    // stutter pruning: the same failed compare-exchange by the same thread in
+                    // the same round would observe the same value again
+                    let f = &mut *self.c.fail.get();
+                    assume(!(f.0 == THREAD && f.1 == ROUND + 1 && f.2 == cur));
+                    *f = (THREAD, ROUND + 1, cur);
+                    if THREAD < 8 {
+                        CAS_FAILS[THREAD] += 1;
+                    }
+                }
+                Err(old)
+            }
+        }
+    }
+}
+
+#[derive(Debug)]
+pub struct AtomicI64 {
+    c: AtomicU64,
+}
+impl AtomicI64 {
+    pub const fn new(x: i64) -> Self {
+        AtomicI64 { c: AtomicU64::new(x as u64) }
+    }
+    pub fn load(&self, o: Ordering) -> i64 {
+        self.c.load(o) as i64
+    }
+    pub fn store(&self, x: i64, o: Ordering) {
+        self.c.store(x as u64, o)
+    }
+    pub fn swap(&self, x: i64, o: Ordering) -> i64 {
+        self.c.swap(x as u64, o) as i64
+    }
+    pub fn fetch_add(&self, x: i64, o: Ordering) -> i64 {
+        self.c.fetch_add(x as u64, o) as i64
+    }
+    pub fn fetch_sub(&self, x: i64, o: Ordering) -> i64 {
+        self.c.fetch_sub(x as u64, o) as i64
+    }
+}
+
+#[derive(Debug)]
+pub struct Mutex<T> {
+    held: AtomicU64,
+    data: UnsafeCell<T>,
+}
+unsafe impl<T: Send> Sync for Mutex<T> {}
+unsafe impl<T: Send> Send for Mutex<T> {}
+#[derive(Debug)]
+pub struct MutexGuard<'a, T> {
+    m: &'a Mutex<T>,
+}
+impl<T> Mutex<T> {
+    pub const fn new(t: T) -> Self {
+        Mutex { held: AtomicU64 { c: Cell::new(0, 1) }, data: UnsafeCell::new(t) }
+    }
+    /// Blocking acquire: executions in which the lock is held at this point are pruned (the
+    /// failed attempt has no side effect; the execution in which the thread tries later is
+    /// explored as well).
+    pub fn lock(&self) -> Result<MutexGuard<'_, T>, ()> {
+        sched_point_inner();
+        unsafe {
+            let p = self.held.slot();
+            assume(*p == 0);
+            *p = 1;
+        }
+        Ok(MutexGuard { m: self })
+    }
+}
+impl<T> Drop for MutexGuard<'_, T> {
+    fn drop(&mut self) {
+        sched_point_inner();
+        unsafe {
+            *self.m.held.slot() = 0;
+        }
+    }
+}
+impl<T> std::ops::Deref for MutexGuard<'_, T> {
+    type Target = T;
+    fn deref(&self) -> &T {
+        unsafe { &*self.m.data.get() }
+    }
+}
